@@ -151,7 +151,11 @@ fn build_files(files: &[(String, String)], roots: &[String], ch: &Ch) -> Option<
   let sched = Sched::new(SchedMode::Immediate);
   let loader = ScriptedLoader::new(sched);
   for (u, s) in files {
-    loader.add_text(u, s);
+    // a "source" of the form `=> <url>` stands for a loader redirect
+    match s.strip_prefix("=> ") {
+      Some(to) => loader.add(u, Entry::Redirect(url(to))),
+      None => loader.add_text(u, s),
+    }
   }
   let analyzer = deno_graph::ast::CapturingModuleAnalyzer::default();
   let mut graph = ModuleGraph::new(GraphKind::All);
@@ -225,11 +229,22 @@ fn body_stars(n: usize) -> impl Fn(&Ch) -> Run + Sync + Send {
         }
       }
     }
+    // how the star edges are spelled: directly, through a specifier the loader
+    // redirects, or (additionally) as a namespace re-export
+    let spelling = ch.shape("star_edge_spelling", 3);
     let mut files = vec![];
+    let mut ns_names: Vec<Vec<String>> = vec![vec![]; n];
     for i in 0..n {
       let mut s = String::new();
       for j in &edges[i] {
-        s.push_str(&format!("export * from \"./m{j}.ts\";\n"));
+        match spelling {
+          1 => s.push_str(&format!("export * from \"./r{j}.ts\";\n")),
+          2 => {
+            s.push_str(&format!("export * from \"./m{j}.ts\";\nexport * as ns{j} from \"./m{j}.ts\";\n"));
+            ns_names[i].push(format!("ns{j}"));
+          }
+          _ => s.push_str(&format!("export * from \"./m{j}.ts\";\n")),
+        }
       }
       for name in own[i] {
         if *name == "default" {
@@ -238,9 +253,14 @@ fn body_stars(n: usize) -> impl Fn(&Ch) -> Run + Sync + Send {
           s.push_str(&format!("export const {name}: number = {i};\n"));
         }
       }
-      files.push((format!("file:///s/m{i}.ts"), s));
+      files.push((format!("https://s/m{i}.ts"), s));
     }
     let roots: Vec<String> = files.iter().map(|(u, _)| u.clone()).collect();
+    if spelling == 1 {
+      for j in 0..n {
+        files.push((format!("https://s/r{j}.ts"), format!("=> https://s/m{j}.ts")));
+      }
+    }
     let Some((graph, analyzer)) = build_files(&files, &roots, ch) else {
       run.violate("build-did-not-finish", "deadlock", json!({}));
       return run;
@@ -248,6 +268,10 @@ fn body_stars(n: usize) -> impl Fn(&Ch) -> Run + Sync + Send {
     let root = RootSymbol::new(&graph, &analyzer);
     // reference: least fixpoint of own ∪ ⋃ (star-target exports \ {default})
     let mut names: Vec<BTreeSet<String>> = own.iter().map(|o| o.iter().map(|s| s.to_string()).collect()).collect();
+    for i in 0..n {
+      // `export * as ns from` is an own (named) export of the re-exporting module
+      names[i].extend(ns_names[i].iter().cloned());
+    }
     loop {
       let mut changed = false;
       for i in 0..n {
@@ -302,7 +326,7 @@ fn body_stars(n: usize) -> impl Fn(&Ch) -> Run + Sync + Send {
       }
       run.evals += check_module(module, &root, &mut run, &case);
     }
-    run.state_key = hash_of(&format!("{own:?}{edges:?}"));
+    run.state_key = hash_of(&format!("{own:?}{edges:?}{spelling}"));
     run.nontrivial = edges.iter().map(|e| e.len()).sum::<usize>() >= 2;
     run.outcome_key = hash_of(&outcome);
     if ch.describe() {
